@@ -476,7 +476,10 @@ func (e *Eval) evalLoop(fr *frame, h *ssa.BasicBlock, body map[*ssa.BasicBlock]b
 		}
 	}
 	// normal exit edge(s) of the header
-	if ifi, ok := h.Instrs[len(h.Instrs)-1].(*ssa.If); ok {
+	if T > 0 && !haveBack {
+		// the body runs at least once and never comes back to the header: the loop is only
+		// ever left from inside its body, the normal exit is infeasible in this context
+	} else if ifi, ok := h.Instrs[len(h.Instrs)-1].(*ssa.If); ok {
 		_ = ifi
 		for _, s := range h.Succs {
 			if !body[s] {
